@@ -163,14 +163,18 @@ def _ulps(a: float, b: float, n: float) -> bool:
 
 
 def _long_decimal(d) -> bool:
-    """True when step or low is not a short decimal (its shortest repr needs more than 15 significant digits): then the
-    exact decimal grid point k*step+low is not a double, which is the mechanism of finding F16."""
+    """Mechanism of finding F16: the exact decimal value of the top grid point, low + k*step computed in Decimal from the
+    shortest reprs (what the constructor computes), is not a double - converting it to float and back to its shortest repr
+    changes it, so the re-parsed range is no longer decimal-divisible and the constructor adjusts `high` again.  (A correct
+    constructor cannot avoid this; a constructor that mis-computes a representable grid top - seed C11-1 - is not covered.)"""
     from decimal import Decimal
 
     st = getattr(d, "step", None)
     if st is None:
         return False
-    return any(len(Decimal(repr(float(x))).as_tuple().digits) > 15 for x in (st, d.low))
+    k = round((d.high - d.low) / st)
+    exact = Decimal(repr(float(d.low))) + k * Decimal(repr(float(st)))
+    return Decimal(repr(float(exact))) != exact
 
 
 def check_json(ctx: Ctx, d, fam: str, other) -> None:
@@ -190,7 +194,7 @@ def check_json(ctx: Ctx, d, fam: str, other) -> None:
         readj = bool(stepped and type(d2) is type(d) and d2.low == d.low and d2.step == d.step and d2.log == d.log
                      and d2.high < d.high)
         ctx.violation({"kind": "json_roundtrip_not_identity", "cls": type(d).__name__, "stepped_float": stepped,
-                       "only_high_readjusted_downwards": readj, "step_or_low_needs_more_than_15_digits": _long_decimal(d)},
+                       "only_high_readjusted_downwards": readj, "exact_decimal_grid_top_is_not_a_double": _long_decimal(d)},
                       f"json round trip changed {d!r} into {d2!r}", case, {"json": j})
         return d2
     j2 = D.distribution_to_json(d2)
@@ -212,7 +216,7 @@ def check_json(ctx: Ctx, d, fam: str, other) -> None:
             stepped = isinstance(d, D.FloatDistribution) and d.step is not None
             readj = bool(stepped and d3.low == d.low and d3.step == d.step and d3.high < d.high)
             ctx.violation({"kind": "json_roundtrip_not_identity", "cls": type(d).__name__, "stepped_float": stepped,
-                           "only_high_readjusted_downwards": readj, "form": "abbreviated", "step_or_low_needs_more_than_15_digits": _long_decimal(d)},
+                           "only_high_readjusted_downwards": readj, "form": "abbreviated", "exact_decimal_grid_top_is_not_a_double": _long_decimal(d)},
                           f"abbreviated JSON of {d!r} parses to {d3!r}", case)
     # single() and compatibility answers before/after
     if d.single() != d2.single():
@@ -299,8 +303,9 @@ def _value_back_ok(d, v, back, t01: bool) -> tuple[bool, str]:
         k2 = (back - d.low) / d.step
         # low + k*step cancels when |v| << |low|: the two legitimate doubles of one grid point differ
         # by ulps of the range scale, not of v
-        scale = max(abs(d.low), abs(d.high))
-        return (round(k1) == round(k2) and abs(back - v) <= 2 * float(np.spacing(scale))), "grid_index"
+        # (the product k*step is as large as high-low, which can exceed both bounds in magnitude)
+        scale = max(abs(d.low), abs(d.high), d.high - d.low)
+        return (round(k1) == round(k2) and abs(back - v) <= (4 if t01 else 2) * float(np.spacing(scale))), "grid_index"
     if not d.single() and v == d.high and back == float(np.nextafter(d.high, d.high - 1)):
         return True, "half_open_high"
     if t01:
